@@ -892,10 +892,11 @@ def commit_refreshes_state(ctx, rid, what=""):
     if len(dumps) != 1:
         raise AnalysisError(f"{rid}: exactly one dump call expected in write_toml")
     dn = cfg.node_of(dumps[0])
+    cenv = _cfg_env(f)
     keys = {}
     for st in walk_local(f):
         if isinstance(st, ast.Assign) and len(st.targets) == 1:
-            c = _cfg_chain(st.targets[0], {})
+            c = _cfg_chain(st.targets[0], cenv)
             if c and len(c) == 2 and c[0] == "current":
                 keys.setdefault(c[1], []).append(st)
     if len(keys) < 3:
